@@ -388,3 +388,118 @@ func ParseResultLine(line string) (vegeta.Result, error) {
 	}
 	return x, nil
 }
+
+// SameResult is an equality on results written for the harness, independent of Result.Equal: all scalar
+// fields equal, timestamps the same instant, bodies equal as byte strings (nil = empty), headers both nil
+// or both non-nil with the same keys and, key by key, the same values in the same order.
+func SameResult(a, b *vegeta.Result) bool {
+	if a.Attack != b.Attack || a.Seq != b.Seq || a.Code != b.Code || a.Latency != b.Latency || a.BytesOut != b.BytesOut ||
+		a.BytesIn != b.BytesIn || a.Error != b.Error || a.Method != b.Method || a.URL != b.URL {
+		return false
+	}
+	if a.Timestamp.Unix() != b.Timestamp.Unix() || a.Timestamp.Nanosecond() != b.Timestamp.Nanosecond() {
+		return false
+	}
+	if string(a.Body) != string(b.Body) {
+		return false
+	}
+	if (a.Headers == nil) != (b.Headers == nil) || len(a.Headers) != len(b.Headers) {
+		return false
+	}
+	for k, va := range a.Headers {
+		vb, ok := b.Headers[k]
+		if !ok || len(va) != len(vb) {
+			return false
+		}
+		for i := range va {
+			if va[i] != vb[i] {
+				return false
+			}
+		}
+	}
+	return true
+}
+
+// CloneResult is a deep copy.
+func CloneResult(x *vegeta.Result) vegeta.Result {
+	y := *x
+	if x.Body != nil {
+		y.Body = append([]byte{}, x.Body...)
+	}
+	if x.Headers != nil {
+		y.Headers = http.Header{}
+		for k, v := range x.Headers {
+			if v == nil {
+				y.Headers[k] = nil
+			} else {
+				y.Headers[k] = append([]string{}, v...)
+			}
+		}
+	}
+	return y
+}
+
+// LongText builds a valid UTF-8 text of exactly n bytes out of the atoms of Text (quotes, commas,
+// newlines, blanks, multi-byte runes; CR only if allowed), padded with ASCII letters.
+func LongText(r *kit.Rng, o TextOpts, n int) string {
+	var sb strings.Builder
+	for sb.Len() < n {
+		t := Text(r, o)
+		if t == "" {
+			t = "x"
+		}
+		if sb.Len()+len(t) > n {
+			sb.WriteString(strings.Repeat("y", n-sb.Len()))
+			break
+		}
+		sb.WriteString(t)
+	}
+	s := sb.String()
+	if !o.CRLF {
+		for strings.Contains(s, "\r\n") { // atoms glued together may form CRLF
+			s = strings.ReplaceAll(s, "\r\n", "\ry")
+		}
+	}
+	return s
+}
+
+// BigFieldKinds are the ways Inflate can make a record large.
+var BigFieldKinds = []string{"body", "error", "url", "attack", "header-value", "header-many-keys", "header-many-values"}
+
+// Inflate makes x's encoded size grow by about n bytes through the given field.
+func Inflate(r *kit.Rng, x *vegeta.Result, kind string, n int, o TextOpts) {
+	switch kind {
+	case "body":
+		b := make([]byte, n)
+		r.Read(b)
+		x.Body = b
+	case "error":
+		x.Error = LongText(r, o, n)
+	case "url":
+		x.URL = "http://h/" + LongText(r, o, n)
+	case "attack":
+		x.Attack = LongText(r, o, n)
+	case "header-value":
+		if x.Headers == nil {
+			x.Headers = http.Header{}
+		}
+		v := strings.Repeat("v", n/2) + " " + strings.Repeat("w", n-n/2-1)
+		x.Headers["X-Big"] = []string{v}
+	case "header-many-keys":
+		if x.Headers == nil {
+			x.Headers = http.Header{}
+		}
+		for i := 0; i*24 < n; i++ {
+			x.Headers["X-K"+strconv.Itoa(i)] = []string{"value-" + strconv.Itoa(i)}
+		}
+	case "header-many-values":
+		if x.Headers == nil {
+			x.Headers = http.Header{}
+		}
+		var vs []string
+		for i := 0; i*16 < n; i++ {
+			vs = append(vs, "v"+strconv.Itoa(i))
+		}
+		x.Headers["Set-Cookie"] = vs
+	}
+}
